@@ -1,5 +1,7 @@
 """C34 — unused-expression warnings only flag removable code (the side-effect table)."""
 import fmap
+import cfgq
+from facts import op_local, place_local
 
 CHECKER_CONST = "compiler::unused_expression_checker::SIDE_EFFECT_FUNCTIONS"
 EMBEDDER_PROVIDED = {"set_semantic_meaning": "registered by the embedder (Vector), not part of this crate's stdlib; listing it is harmless"}
@@ -29,7 +31,7 @@ def run(chk):
         "Decides the side-effect table behind the unused-result warning, not the visitor's bookkeeping. R34a: SIDE_EFFECT_FUNCTIONS (read from the "
         "const's MIR) contains every stdlib function whose `pure()` is the constant false. R34b: it contains every closure-less function whose resolve "
         "(P-EFFECT over the resolved call graph, stopping at child-expression evaluation) can write the target, secrets or variables; closure-taking "
-        "functions are exempt because the checker never flags calls with a closure. R34c: every listed name is a registered function or a frozen embedder-"
+        "functions are exempt because the checker never flags calls with a closure — which R34d decides: in AstVisitor::visit_function_call every append_diagnostic is unreachable from the `Some` edge of the test on function_call.closure. R34c: every listed name is a registered function or a frozen embedder-"
         "provided name. LOG/NET/FS atoms are reported unarmed (deleting such a call changes neither event nor success).")
     chk.assumptions += ["effect atoms of third-party callees come from the reviewed name table in fmap.ATOMS",
                         "`dyn`/generic trait calls are expanded to all local impls (CHA) except child-expression evaluation"]
@@ -89,3 +91,41 @@ def run(chk):
             chk.instance(rid, d, ok=False)
             chk.violation(rid, "src/compiler/unused_expression_checker.rs", CHECKER_CONST, "unknown name `%s`" % name,
                           "SIDE_EFFECT_FUNCTIONS lists `%s`, which is not a function of this crate (typo => the real function is treated as removable)" % name, detail=d)
+
+    rule_r34d(chk)
+
+
+VISIT_CALL = "compiler::unused_expression_checker::AstVisitor::<'_>::visit_function_call"
+
+
+def rule_r34d(chk):
+    """the exemption R34b relies on: a call that carries a closure is never reported as an unused result"""
+    rid = "R34d"
+    chk.rule(rid, "in visit_function_call no append_diagnostic is reachable from the `Some(closure)` edge", floor=2)
+    b = chk.anchor(VISIT_CALL, rid)
+    if b is None:
+        return
+    sw = []
+    for bi, place, adt, tg, other in cfgq.discr_switches_on(chk.facts, b, lambda p, adt: adt.endswith("option::Option")):
+        root = cfgq.ref_root(b, place_local(place))
+        if root and root[0] == 2 and "closure" in root[1]:
+            sw.append((bi, tg, other))
+    if len(sw) != 1:
+        chk.fail_closed(rid, "expected exactly one test on function_call.closure in visit_function_call, found %d" % len(sw))
+        return
+    bi, tg, other = sw[0]
+    some = tg.get("Some", other)
+    chk.instance(rid, {"switch_block": bi, "some_target": some, "line": b.loc(b.term(bi))}, ok=True)
+    region = b.reachable_from_edges([some])
+    diag = [(bb, t) for bb, t in b.calls() if b.callee(t).endswith("VisitorState::append_diagnostic")]
+    if not diag:
+        chk.fail_closed(rid, "visit_function_call no longer calls append_diagnostic directly: the unused-result report moved; re-anchor R34d")
+    for n, (bb, t) in enumerate(diag):
+        d = {"block": bb, "line": b.loc(t), "reachable_with_closure": bb in region}
+        if bb in region:
+            chk.instance(rid, d, ok=False)
+            chk.violation(rid, b.file, VISIT_CALL, "append_diagnostic#%d on the closure path" % n,
+                          "an `unused result` diagnostic can be emitted for a call that carries a closure (%s): closures write through to outer variables, "
+                          "so such a call is not removable, and R34b's closure exemption no longer holds" % b.loc(t), detail=d)
+        else:
+            chk.instance(rid, d, ok=True)
